@@ -231,6 +231,63 @@ Definition L1_bad (fuel : nat) (pt : ptype) (ss : list selection) : list N :=
       if String.eqb (fe_key a) (fe_key b) && negb (compat_b fuel false a b)
       then [fe_id a; fe_id b] else []) fs) fs.
 
+(* ---- L1 as a three-valued executable oracle: None = out of fuel (never a verdict).
+   Proofs/ValidateL1.v: [L1o fuel = Some b] implies (b = true <-> L1_accepts). ---- *)
+Fixpoint all_o {A} (f : A -> option bool) (l : list A) : option bool :=
+  match l with
+  | [] => Some true
+  | x :: r =>
+    match f x, all_o f r with
+    | Some false, _ => Some false
+    | _, Some false => Some false
+    | None, _ => None
+    | _, None => None
+    | Some true, Some true => Some true
+    end
+  end.
+
+(* fragments reachable from a list of names: iterate until nothing new appears *)
+Fixpoint reach_o (n : nat) (seen : list name) : option (list name) :=
+  match n with
+  | O => None
+  | Datatypes.S n' =>
+    let nxt := flat_map frag_spreads seen in
+    if forallb (fun x => nmem x seen) nxt then Some seen
+    else reach_o n' (dedup (seen ++ nxt) [])
+  end.
+
+Definition expanded_o (s : ptype * list selection) : option (list fentry) :=
+  match reach_o (Datatypes.S (Datatypes.S (List.length (d_frags D)))) (dspreads (snd s)) with
+  | Some gs => Some (dfields (fst s) (snd s) ++ flat_map frag_fields gs)
+  | None => None
+  end.
+
+Definition base2_ok (ex : bool) (a b : fentry) : bool := base_ok ex a b && base_ok ex b a.
+
+Fixpoint compat_o (fuel : nat) (fl : bool) (a b : fentry) : option bool :=
+  match fuel with
+  | O => None
+  | Datatypes.S f =>
+    let ex := fl || excl a b in
+    if negb (base2_ok ex a b) then Some false
+    else if has_sub a && has_sub b then
+      match expanded_o (sub_pt a, fe_sub a), expanded_o (sub_pt b, fe_sub b) with
+      | Some la, Some lb =>
+        all_o (fun a' => all_o (fun b' => if String.eqb (fe_key a') (fe_key b')
+                                          then compat_o f ex a' b' else Some true) lb) la
+      | _, _ => None
+      end
+    else Some true
+  end.
+
+Definition L1_set_o (fuel : nat) (s : ptype * list selection) : option bool :=
+  match expanded_o s with
+  | Some l =>
+    all_o (fun a => all_o (fun b => if String.eqb (fe_key a) (fe_key b)
+                                    then compat_o fuel false a b else Some true) l) l
+  | None => None
+  end.
+
 (* ================= the selection sets the rule is called on ================= *)
 
 Definition comp (p : ptype) : ptype :=
@@ -285,6 +342,15 @@ Definition L1_offending (fuel : nat) : list N :=
 Definition L1b (fuel : nat) : bool :=
   match L1_offending fuel with [] => true | _ => false end.
 
+(* every selection set the rule visits and every fragment body (parent type as computed by
+   getReferencedFieldsAndFragmentNames) *)
+Definition frag_bodies : list (ptype * list selection) :=
+  flat_map (fun f => match frag (fr_name f) with
+                     | Some fr => [(resolve (fr_cond fr), fr_sel fr)]
+                     | None => []
+                     end) (d_frags D).
+Definition L1o (fuel : nat) : option bool := all_o (L1_set_o fuel) (all_sets ++ frag_bodies).
+
 (* ================= acyclicity of the spread graph (through fields too) ================= *)
 
 Fixpoint all_spreads_sel (s : selection) : list name :=
@@ -318,9 +384,13 @@ Variable memo : bool.
 
 Record mst := {
   m_pairs : list (name * name * bool);            (* comparedSet *)
-  m_ffs : list (ptype * N * name * bool) }.       (* comparedFieldsAndFragmentSet *)
+  m_ffs : list (ptype * N * name * bool);         (* comparedFieldsAndFragmentSet *)
+  m_oof : bool;                                   (* the model ran out of fuel somewhere *)
+  m_fc : nat }.                                   (* findConflict calls so far (C19) *)
 
-Definition mst0 : mst := {| m_pairs := []; m_ffs := [] |}.
+Definition mst0 : mst := {| m_pairs := []; m_ffs := []; m_oof := false; m_fc := 0 |}.
+Definition set_oof (st : mst) : mst := {| m_pairs := m_pairs st; m_ffs := m_ffs st; m_oof := true; m_fc := m_fc st |}.
+Definition inc_fc (st : mst) : mst := {| m_pairs := m_pairs st; m_ffs := m_ffs st; m_oof := m_oof st; m_fc := Datatypes.S (m_fc st) |}.
 
 Fixpoint pair_find (a b : name) (l : list (name * name * bool)) : option bool :=
   match l with
@@ -334,7 +404,7 @@ Definition pair_has (st : mst) (a b : name) (fl : bool) : bool :=
   end.
 (* newest entry first: an Add overwrites *)
 Definition pair_add (st : mst) (a b : name) (fl : bool) : mst :=
-  {| m_pairs := (a, b, fl) :: (b, a, fl) :: m_pairs st; m_ffs := m_ffs st |}.
+  {| m_pairs := (a, b, fl) :: (b, a, fl) :: m_pairs st; m_ffs := m_ffs st; m_oof := m_oof st; m_fc := m_fc st |}.
 
 Fixpoint ff_find (p : ptype) (k : N) (g : name) (l : list (ptype * N * name * bool)) : option bool :=
   match l with
@@ -348,7 +418,7 @@ Definition ff_has (st : mst) (p : ptype) (k : N) (g : name) (fl : bool) : bool :
   | Some stored => if fl then true else negb stored
   end.
 Definition ff_add (st : mst) (p : ptype) (k : N) (g : name) (fl : bool) : mst :=
-  {| m_pairs := m_pairs st; m_ffs := (p, k, g, fl) :: m_ffs st |}.
+  {| m_pairs := m_pairs st; m_ffs := (p, k, g, fl) :: m_ffs st; m_oof := m_oof st; m_fc := m_fc st |}.
 
 Definition fset := (ptype * list selection)%type.   (* a fieldsAndFragmentNames value *)
 Definition same_set (a b : fset) : bool :=
@@ -364,8 +434,9 @@ Definition seq {A} (step : A -> mst -> list N * mst) (l : list A) (st : mst) : l
 
 Fixpoint fc (fuel : nat) (fl : bool) (a b : fentry) (st : mst) {struct fuel} : list N * mst :=
   match fuel with
-  | O => ([], st)
+  | O => ([], set_oof st)
   | Datatypes.S f =>
+    let st := inc_fc st in
     let ex := fl || excl a b in
     if negb (base_ok ex a b) then ([fe_id a], st)
     else if has_sub a && has_sub b then
@@ -375,7 +446,7 @@ Fixpoint fc (fuel : nat) (fl : bool) (a b : fentry) (st : mst) {struct fuel} : l
   end
 with between (fuel : nat) (fl : bool) (l1 l2 : list fentry) (st : mst) {struct fuel} : list N * mst :=
   match fuel with
-  | O => ([], st)
+  | O => ([], set_oof st)
   | Datatypes.S f =>
     seq (fun k =>
       seq (fun a =>
@@ -383,7 +454,7 @@ with between (fuel : nat) (fl : bool) (l1 l2 : list fentry) (st : mst) {struct f
   end
 with subsets (fuel : nat) (fl : bool) (s1 s2 : fset) (st : mst) {struct fuel} : list N * mst :=
   match fuel with
-  | O => ([], st)
+  | O => ([], set_oof st)
   | Datatypes.S f =>
     let g1 := dspreads (snd s1) in
     let g2 := dspreads (snd s2) in
@@ -395,7 +466,7 @@ with subsets (fuel : nat) (fl : bool) (s1 s2 : fset) (st : mst) {struct fuel} : 
   end
 with ffrag (fuel : nat) (fl : bool) (s : fset) (g : name) (st : mst) {struct fuel} : list N * mst :=
   match fuel with
-  | O => ([], st)
+  | O => ([], set_oof st)
   | Datatypes.S f =>
     if memo && ff_has st (fst s) (first_id (snd s)) g fl then ([], st)
     else
@@ -413,7 +484,7 @@ with ffrag (fuel : nat) (fl : bool) (s : fset) (g : name) (st : mst) {struct fue
   end
 with frfr (fuel : nat) (fl : bool) (g1 g2 : name) (st : mst) {struct fuel} : list N * mst :=
   match fuel with
-  | O => ([], st)
+  | O => ([], set_oof st)
   | Datatypes.S f =>
     match frag g1, frag g2 with
     | Some f1, Some f2 =>
@@ -461,5 +532,8 @@ Definition within_set (fuel : nat) (s : fset) (st : mst) : list N * mst :=
 (* the rule over the whole document: first nodes of the reported errors *)
 Definition run_overlap (fuel : nat) : list N :=
   fst (seq (within_set fuel) all_sets mst0).
+(* did the run stay within its fuel? (OutOfFuel is never a normal-looking result) *)
+Definition run_complete (fuel : nat) : bool :=
+  negb (m_oof (snd (seq (within_set fuel) all_sets mst0))).
 
 End Overlap.
